@@ -229,8 +229,10 @@ def _set_frameset(s0, s1, nfr, start, stop, step, indirect, both, second):
             want = [gfr * 10 + b for b in range(fsz)] if both else [gfr * 10 + b for b in range(s0, fsz)]
             if got.get(i) != want:
                 return False
-            if indirect and fs._x[i] != 1000 - 60 * gfr:
-                if not (excl and _known_x(sel, nfr, i)):
+            if indirect:
+                # strict: the recorded X; while the finding is listed: exactly the X its documented extrapolation yields
+                want_x = _known_x_values(sel, [nfr, nfr, nfr], lambda g_: 1000 - 60 * g_, -60)[i] if excl else 1000 - 60 * gfr
+                if fs._x[i] != want_x:
                     return False
         # reads only inside the records that contain requested frames
         need = sorted({100 * (gfr // nfr + 1) for gfr in sel})
@@ -379,6 +381,42 @@ def _index_structure(nrec, f0, f1, f2, indirect, tif, table, split, var=0):
     return True
 
 
+def _known_x_values(sel, fpr, xtrue, spacing):
+    """The implied X of every loaded frame as LogPass.setFrameSet computes it today (known finding
+    setframeset_implied_x_after_record_boundary), in closed form: the first loaded frame of a record is extrapolated by its offset in the
+    record, later frames of the record by the step - but from the X of the PREVIOUSLY LOADED frame instead of the record's own X (except for
+    the very first loaded frame).  xtrue(g) is the recorded X of frame g; spacing the signed frame spacing in X units."""
+    starts = []
+    g = 0
+    for n in fpr:
+        starts.append(g)
+        g += n
+
+    def rec_of(fr):
+        r = 0
+        for k, st in enumerate(starts):
+            if fr >= st:
+                r = k
+        return r
+    out = []
+    prev_rec = None
+    for i, g in enumerate(sel):
+        r = rec_of(g)
+        off = g - starts[r]
+        if r != prev_rec:
+            if off == 0:
+                x = xtrue(g)
+            elif i == 0:
+                x = xtrue(starts[r]) + spacing * off
+            else:
+                x = out[i - 1] + spacing * off
+        else:
+            x = out[i - 1] + spacing * (g - sel[i - 1])
+        out.append(x)
+        prev_rec = r
+    return out
+
+
 def _known_x_var(sel, fpr, i):
     starts = []
     g = 0
@@ -430,7 +468,12 @@ def _load(fpr, indirect, tif, start, stop, step, m1, m2, second, var=0):
         if row != [float(model[g][c]) for c in cols]:
             return False
         if indirect:
-            if fs.xAxisValue(i) != model[g][0] and not (excl and _known_x_var(sel, fpr, i)):
+            if excl:
+                # listed finding, tolerated exactly: the X the documented (wrong) extrapolation yields
+                step_x = model[1][0] - model[0][0] if len(model) > 1 else 0
+                if fs.xAxisValue(i) != _known_x_values(sel, fpr, lambda g_: model[g_][0], step_x)[i]:
+                    return False
+            elif fs.xAxisValue(i) != model[g][0]:
                 return False
         elif fs.xAxisValue(i) != model[g][0]:
             return False
